@@ -137,6 +137,10 @@ func Malform(kind, payload string, sizes []int) string {
 		return fmt.Sprintf("\n#%d\n%s\n##\n", n+7, payload)
 	case "oversize": // size far beyond the message
 		return fmt.Sprintf("\n#%d\n%s\n##\n", n+100000, payload)
+	case "oversize-max": // a size at the very end of the 64-bit range (any arithmetic on it wraps)
+		return fmt.Sprintf("\n#%d\n%s\n##\n", uint64(9223372036854775807)-uint64(n%21), payload)
+	case "oversize-10digits": // the largest sizes the RFC's ten digits can spell
+		return fmt.Sprintf("\n#%s\n%s\n##\n", []string{"4294967295", "9999999999", "4294967296"}[n%3], payload)
 	case "size-plus-3": // the size reaches exactly over the end-of-chunks marker
 		return fmt.Sprintf("\n#%d\n%s\n##\n", n+3, payload)
 	case "swallow": // a first chunk whose size covers the later chunks' headers and the marker
